@@ -85,6 +85,7 @@ def cases(rng, tier, shard, nshards):
             yield E2E, tplgen.gen_template(rng)
         if k % 2 == 0:
             yield SEQ, {"template": x["template"], "extras": [x["extra"], tplgen.vary_extra(rng, x), tplgen.vary_extra(rng, x)]}
+            yield SEQ, tplgen.gen_sensitive_sequence(rng)
 
 
 def extra_checks(tier, seed, stats, broken):
